@@ -545,7 +545,6 @@ func ruleT2rel(c *Ctx, id string) {
 	}
 }
 
-
 // ---------------------------------------------------------------- C11.V15
 
 // frozen invariants for uses of a possibly-nil inode without a nil test
@@ -555,8 +554,8 @@ var nilUseJustified = map[string]string{
 	// lock (C04.S2), which READDIRPLUS holds, so an entry it reads names a live inode.  ".." could name a freed
 	// parent only if the parent's count reached 0 while the child exists; known finding D5b errs in the other
 	// direction (the old parent is never freed).
-	"nfs.Ls3|field Gen":          "entry of a locked directory names a live inode (C04.S2)",
-	"nfs.Ls3|field Inum":         "entry of a locked directory names a live inode (C04.S2)",
+	"nfs.Ls3|field Gen":         "entry of a locked directory names a live inode (C04.S2)",
+	"nfs.Ls3|field Inum":        "entry of a locked directory names a live inode (C04.S2)",
 	"nfs.Ls3|passed to MkFattr": "entry of a locked directory names a live inode (C04.S2)",
 }
 
